@@ -175,7 +175,7 @@ func c07Reason(err error) string {
 }
 
 func c07(r *hx.Run) {
-	r.Rule = "bounded-exhaustive families of JSON texts, each compared byte for byte with the independent RFC 8785 reference (ref/jcs): (1) objects with every <=3-subset of 25 tricky keys in every member order; (2) every escape spelling of every string atom and of every ordered pair of atoms, as value and as key; (3) number spellings; (4) all trees of depth<=3 width<=2; (5) whitespace at every structural position; (6) rejection families: every proper prefix, duplicate names incl. escape-equivalent spellings, all 256 two-character escapes, malformed \\u, all lone-surrogate shapes, raw control bytes, trailing bytes; (7) ES6 number formatting on doubles enumerated by bit pattern and on decimal literals. Non-trivial: distinct canonical outputs / distinct rejected inputs."
+	r.Rule = "bounded-exhaustive families of JSON texts, each compared byte for byte with the independent RFC 8785 reference (ref/jcs): (1) objects with every <=3-subset of 25 tricky keys in every member order; (2) every escape spelling of every string atom and of every ordered pair of atoms, as value and as key; (3) number spellings, incl. every token of the number grammar over 4 integer parts x 6 fractions x 12 exponents x sign; (4) all trees of depth<=3 width<=2; (5) whitespace at every structural position; (6) rejection families: every proper prefix, duplicate names incl. escape-equivalent spellings, all 256 two-character escapes, malformed \\u, all lone-surrogate shapes, raw control bytes, trailing bytes; (7) ES6 number formatting on doubles enumerated by bit pattern and on decimal literals. Non-trivial: distinct canonical outputs / distinct rejected inputs."
 	var docs [][2]string // family, doc
 	add := func(f, d string) { docs = append(docs, [2]string{f, d}) }
 
@@ -223,6 +223,17 @@ func c07(r *hx.Run) {
 	}
 	for _, sp := range []string{"1", "1.0", "1e0", "10e-1", "1E+0", "100e-2", "0.1e1", "1.000", "1e00", "1E-0"} {
 		add("number-spelling", "["+sp+"]")
+	}
+	// every token of the RFC 8259 number grammar [minus] int [frac] [exp] over small parts (a zero integer part directly followed
+	// by an exponent, leading zeros inside the exponent, signed zero exponents, ...)
+	for _, sign := range []string{"", "-"} {
+		for _, ip := range []string{"0", "1", "10", "12"} {
+			for _, fp := range []string{"", ".0", ".5", ".00", ".50", ".05"} {
+				for _, ep := range []string{"", "e0", "E0", "e+0", "e-0", "e1", "E+1", "e-1", "e00", "e01", "e10", "E-10"} {
+					add("number-grammar", "["+sign+ip+fp+ep+"]")
+				}
+			}
+		}
 	}
 	// (4) trees
 	leaves := []string{"1", "\"é\"", "null", "true", "1e21"}
